@@ -161,6 +161,8 @@ def gen_table(rng, n_enums, big=False):
             spec["limits"][rng.randrange(2)] = None       # one side left open
     if rng.random() < 0.3 and recs:
         spec["nt"] = True
+    elif rng.random() < 0.15:
+        spec["fields_as"] = rng.choice(["tuple", "strenum"])
     if rng.random() < 0.12:
         spec["skip_columns"] = [rng.choice(fields)] if len(fields) > 2 and "fmt" not in spec else []
     if rng.random() < 0.12:
@@ -556,7 +558,7 @@ def generate(rng, tier):
 def _simplify_table(spec):
     for i in range(len(spec.get("records", ()))):
         yield dict(spec, records=spec["records"][:i] + spec["records"][i + 1:])
-    for key in ("header", "footer", "titles", "limits", "nt", "skip_columns", "via_fmt_obj", "usersub", "fmt"):
+    for key in ("header", "footer", "titles", "limits", "nt", "skip_columns", "via_fmt_obj", "usersub", "fields_as", "fmt"):
         if spec.get(key) not in (None, False, []):
             yield {k: v for k, v in spec.items() if k != key}
     fmt = spec.get("fmt")
